@@ -29,7 +29,7 @@ T=[
 ("F18","C08","sample_covariance_online",["C08/covariance/online"],"sample_covariance_online: 1.0833 instead of 1 on x = y = (0,1,2)"),
 ("F19","C08","hist_bin_centers",["C08/hist_bin_centers"],"hist_bin_centers only right for uniform edges: (0,1,3,7) -> (.5,1.5,3.5)"),
 ("F20","C09, C02, C03","gamma no longer overflows",["C09/gamma/positive","C09/gamma/reflection","C09/gamma/recurrence","C09/gamma/factorial","C09/beta/value","C02/Gamma/pdf/value","C02/Beta/pdf/not-finite","C02/ChiSquared/pdf/value","C02/T/pdf/not-finite","C02/Gamma/mass","C02/Gamma/mean-vs-density","C02/Gamma/var-vs-density"],"gamma(x) = inf for x >~ 143.3 (finite up to 171.6), -0 by reflection, beta = 0 for a+b >~ 143"),
-("F21","C10","Adam and SGD only stop early",["C10/early-stop"],"Adam/SGD convergence test compares |x| with |x_prev|: SGD(0.5) on 2x^2 from 1 returns -1 for every k"),
+("F21","C10","Adam and SGD only stop early",["C10/early-stop/sgd","C10/early-stop/adam"],"Adam/SGD convergence test compares |x| with |x_prev|: SGD(0.5) on 2x^2 from 1 returns -1 for every k"),
 ("F22","C11","cholesky rejects",["C11/cholesky/slice/non-pd-accepted","C11/cholesky/Matrix/non-pd-accepted"],"cholesky (both forms) returns NaN factors for symmetric indefinite input with positive diagonal"),
 ("F23","C11, C02","ipiv_parity",["C11/Matrix.det/sign","C11/Matrix.lu_det/sign","C02/MVN/pdf/negative-or-not-finite","C02/MVN/lnpdf/value"],"ipiv_parity mis-counts transpositions: det of a 4-cycle permutation matrix = +1; MVN pdf NaN through the determinant"),
 ("F24","C13","AR forecasts",["C13/AR/predict/recursion","C13/AR/predict_one","C13/AR/shift/forecast","C13/AR/converges-to-mean"],"AR::predict / predict_one apply the recursion to raw instead of mean-centred values: shift by 1000 moves forecast by 1620"),
